@@ -4,6 +4,7 @@
    Vocabulary: Model/Sched.v (ev, run_sched_load, run_fault_load) and
    Proofs/SchedProofs.v (no_hard, capacity, count_short). *)
 From Ase Require Import Proofs.SchedProofs.
+From Ase Require Import Proofs.SchedCorollaries.
 
 (* short reads and interrupted reads in any order: the same result as on the slice *)
 Theorem C14_schedule :
@@ -42,3 +43,31 @@ Theorem C14_fault_event :
           run_sched_load inflate data sched = Ok f)).
 Proof. exact fault_event_thm. Qed.
 Print Assumptions C14_fault_event.
+
+(* two readers that deliver the same bytes without a hard error give the same result *)
+Theorem C14_schedules_agree :
+  forall (inflate : list Z -> Z -> zres) (data : list Z) (s1 s2 : list ev),
+    no_hard s1 -> no_hard s2 -> run_sched_load inflate data s1 = run_sched_load inflate data s2.
+Proof. exact sched_load_agree. Qed.
+Print Assumptions C14_schedules_agree.
+
+(* whatever the reader does (short reads, interruptions, hard errors anywhere): never a panic *)
+Theorem C14_sched_no_panic :
+  forall (inflate : list Z -> Z -> zres) (data : list Z) (sched : list ev) (s : Z),
+    Forall is_byte data -> run_sched_load inflate data sched <> Panic s.
+Proof. exact sched_load_no_panic. Qed.
+Print Assumptions C14_sched_no_panic.
+
+Theorem C14_fault_no_panic :
+  forall (inflate : list Z -> Z -> zres) (data : list Z) (limit : nat) (kind s : Z),
+    Forall is_byte data -> run_fault_load inflate data (Z.of_nat limit) kind <> Panic s.
+Proof. exact fault_load_no_panic. Qed.
+Print Assumptions C14_fault_no_panic.
+
+(* a sprite obtained through a faulty reader is the sprite of the plain load: an I/O error never
+   produces a different sprite *)
+Theorem C14_sched_ok_same :
+  forall (inflate : list Z -> Z -> zres) (data : list Z) (sched : list ev) (f : file),
+    run_sched_load inflate data sched = Ok f -> load inflate data = Ok f.
+Proof. exact sched_load_ok_same. Qed.
+Print Assumptions C14_sched_ok_same.
